@@ -413,6 +413,7 @@ func (d *restDriver) randomTyped(c *ctx, tag string, probe bool) job {
 func restScenC18(d *restDriver, c *ctx) {
 	seq := newClient(1, true, d.deadline)
 	n := c.n(250, 6000)
+	d.do(seq, job{scn: "C18/home", method: "GET", path: "/", cls: "typed", probe: true, q: newRReq()})
 	// sequential, one kept-alive connection: every endpoint
 	for i := 0; i < n; i++ {
 		d.do(seq, d.randomTyped(c, fmt.Sprintf("C18/seq/%d", i), false))
@@ -536,6 +537,10 @@ func restScenC19(d *restDriver, c *ctx) {
 	probe := func() {
 		id++
 		d.do(cl, d.randomTyped(c, fmt.Sprintf("C19/probe/%d", id), true))
+		if id%16 == 1 {
+			// the service's own front page: a well-formed GET that must be a success
+			d.do(cl, job{scn: fmt.Sprintf("C19/home/%d", id), method: "GET", path: "/", cls: "typed", probe: true, q: newRReq()})
+		}
 	}
 	bad := func(path, cls string, body []byte) {
 		id++
